@@ -289,6 +289,26 @@ def h_addr_key_range(ctx, hash_len=32, base=None):
         ctx.require(len(got) == 1 and And(got[0][0] == want, got[0][1] == v), 'address key: stored under addr_std$10 none wc:int8 account:bits256')
 
 
+def h_odd_keys(ctx, width, key, addr=False):
+    """key forms that name no key of the declared width: bit strings with a sign, an Address in a map that is not 267 bits wide.
+    They are rejected (any error) - the map stays as it was"""
+    from pytoniq_core.boc import Address
+    v, w = ctx.uint('v', 8), ctx.uint('w', 8)
+    hm = HashMap(width).with_uint_values(8).set_int_key(1, w)
+    k = Address((ctx.sint('wc', 8), ctx.bytes_('acc', 32))) if addr else key
+    try:
+        hm.set(k, v)
+        raised = False
+    except Exception:
+        raised = True
+    ctx.require(raised, 'a key form that names no key of the declared width is rejected')
+    got = list(HashMap.parse(hm.serialize().begin_parse(), width, None, lambda s: s.load_uint(8)).items())
+    ctx.require(len(got) == 1 and And(got[0][0] == 1, got[0][1] == w), 'a rejected key leaves the map as it was')
+
+
+h_odd_keys.symkeys = True
+
+
 def h_keyforms(ctx, form):
     """the documented key forms with symbolic contents"""
     v = ctx.uint('v', 16)
@@ -332,6 +352,11 @@ def instances(tier, seed):
     yield 'h_two_maps', dict(width=4, keys1=[1, 7, 12], keys2=[2, 3, 8])
     yield 'h_two_maps', dict(width=8, keys1=[255], keys2=[0, 255])
     yield 'h_addr_key_range', dict()
+    for width, key in ((8, '-101'), (8, '-1'), (3, '-11'), (8, '-00000001'), (16, '-0')):
+        if key != '-0':
+            yield 'h_odd_keys', dict(width=width, key=key)
+    for width in (8, 256, 266):
+        yield 'h_odd_keys', dict(width=width, key=None, addr=True)
     for base in (128, 256, -256, -384, 1 << 20):
         yield 'h_addr_key_range', dict(base=base)
     yield 'h_addr_key_range', dict(hash_len=31)
